@@ -122,7 +122,7 @@ Qed.
 Lemma zread_bytes_ser_opt o r :
   blen (view_opt o) <= i32_max -> zread_bytes (ser_opt o ++ r) = Ok (view_opt o, r).
 Proof.
-  intros H. unfold zread_bytes. destruct o as [b|]; cbn [ser_opt view_opt] in *.
+  intros H. rewrite zread_bytes_unfold. destruct o as [b|]; cbn [ser_opt view_opt] in *.
   - rewrite <- app_assoc.
     rewrite zread_i32_app by (unfold in_i32, blen, i32_max in *; lia). cbn [bind].
     destruct (blen b <=? 0) eqn:E.
@@ -185,7 +185,7 @@ Proof.
     rewrite firstn_length. lia.
   - apply Nat.ltb_ge in E8.
     rewrite firstn_app_ge by (rewrite enc_i64_length; exact E8). rewrite enc_i64_length.
-    rewrite zread_i64_app by assumption. cbn [bind]. unfold zread_bytes.
+    rewrite zread_i64_app by assumption. cbn [bind]. rewrite zread_bytes_unfold.
     destruct (Nat.ltb (k - 8) 4) eqn:E4.
     + apply Nat.ltb_lt in E4. unfold zread_i32. rewrite zread_short; [reflexivity|].
       rewrite firstn_length. lia.
